@@ -19,7 +19,8 @@ is used after the callback returns.  Reported per case (data only):
   owned        every in-use object had extra >= 1 (vacuously true when nothing is in use)
   extras       the extra counts
   answer       0 = the pre-mutation value, 1 = the post-mutation value, 2 = something else,
-               3 = the expected exception propagated, 4 = another exception
+               3 = the expected exception propagated, 4 = another exception, 5 = SystemError (the C
+               code went on with an exception set)
   second       a second, undisturbed call returned the post-mutation value
   fired        the callback actually ran (the case exercises the point)
   growth_objs / growth_refs   gc object count / max refcount growth of the participants over
@@ -335,6 +336,9 @@ def run_case(case):
         answer, shown = 3, "Boom"
     except (TypeError, ValueError) as e:
         answer, shown = (3 if sc.variant else 4), type(e).__name__ + ": " + str(e)[:80]
+    except SystemError as e:
+        # the C code carried on with an exception set: never a legitimate outcome
+        answer, shown = 5, "SystemError: " + str(e)[:80]
     except Exception as e:   # noqa
         answer, shown = 4, type(e).__name__ + ": " + str(e)[:80]
     fired = sc.fired if not plain else 1
